@@ -29,7 +29,7 @@ from .explore import digest
 ENV: Any = None  # the world of the execution that is currently running
 
 NONFINAL = ('cont', 'cont_a', 'wait', 'wait_d')
-FINAL = ('ret', 'ret_none', 'unsucc', 'stop_t', 'stop_f', 'killcmd', 'killcmd0', 'raise')
+FINAL = ('ret', 'ret_none', 'unsucc', 'stop_t', 'stop_f', 'killcmd', 'killcmd0', 'raise', 'raise0')
 
 CONT_ARGS = (1, 'x')
 CONT_KWARGS = {'k': 2}
@@ -47,6 +47,13 @@ SELF_PAUSE_TEXT = 'self-pause'
 
 class StepError(Exception):
     """Raised by a generated step ('raise' terminator)."""
+
+
+class EmptyStepError(StepError):
+    """An exception object that is falsy (it has a length, as exceptions carrying a collection of errors do)."""
+
+    def __len__(self) -> int:
+        return 0
 
 
 class CallbackError(Exception):
@@ -126,6 +133,10 @@ def _terminate(self: Any, idx: int, term: Any, last: bool) -> Any:
         return process_states.Kill(plumpy.MessageBuilder.kill(KILLCMD_TEXT))
     if term == 'killcmd0':
         return process_states.Kill()  # the kill command without a message
+    if term == 'raise0':
+        exc0 = EmptyStepError(f'step-{idx}')
+        ENV.raised.append(exc0)
+        raise exc0
     if term == 'raise':
         exc = StepError(f'step-{idx}')
         ENV.raised.append(exc)
